@@ -231,6 +231,8 @@ pub fn store_scenario(r: &mut Report, seed: u64) {
     // LRU models: front = least recently used
     let mut lru_imm: VecDeque<[u8; 20]> = VecDeque::new();
     let mut lru_mut: VecDeque<[u8; 20]> = VecDeque::new();
+    let mut lru_ih: VecDeque<[u8; 20]> = VecDeque::new();
+    let mut lru_sih: VecDeque<[u8; 20]> = VecDeque::new();
     let touch = |q: &mut VecDeque<[u8; 20]>, t: [u8; 20], cap: usize, insert: bool| {
         if let Some(p) = q.iter().position(|x| *x == t) {
             q.remove(p);
@@ -298,13 +300,37 @@ pub fn store_scenario(r: &mut Report, seed: u64) {
                 }
             }
             _ => {
+                // announcements and peer lookups: the info hashes of each peer store are LRU entries too - an
+                // announcement on a stored hash and a lookup that finds it both count as a use (the token in
+                // hand was issued for another hash: tokens bind the address, not the hash)
                 let ih = *rng.pick(&hashes);
-                if rng.bool() {
-                    fx.rpc(&mut clients[ci], |tid| q_announce_peer(tid, &id, &ih, 1000 + step as u16, None, &token));
-                } else {
-                    let ts = fx.w.unix_micros() + 1000;
-                    let sg = sign_announce(rng.pick(&signers), &ih, ts);
-                    fx.rpc(&mut clients[ci], |tid| q_announce_signed_peer(tid, &id, &ih, &sg.k, &sg.sig, ts, &token));
+                let signed = rng.bool();
+                let (lru, cap) = if signed { (&mut lru_sih, caps.2) } else { (&mut lru_ih, caps.2) };
+                if rng.chance(2, 3) {
+                    let reply = if !signed {
+                        fx.rpc(&mut clients[ci], |tid| q_announce_peer(tid, &id, &ih, 1000 + step as u16, None, &token))
+                    } else {
+                        let ts = fx.w.unix_micros() + 1000;
+                        let sg = sign_announce(rng.pick(&signers), &ih, ts);
+                        fx.rpc(&mut clients[ci], |tid| q_announce_signed_peer(tid, &id, &ih, &sg.k, &sg.sig, ts, &token))
+                    };
+                    if reply.is_ack() {
+                        if !lru.contains(&ih) && lru.len() >= cap {
+                            evictions += 1;
+                            r.count("info_hash_evictions_modelled");
+                        }
+                        touch(lru, ih, cap, true);
+                    }
+                } else if let Reply::Resp(k) = fx.rpc(&mut clients[ci], |tid| q_get_peers(tid, &id, &ih, signed)) {
+                    let served = if signed { k.res("peers").is_some() } else { k.res("values").is_some() };
+                    let want = lru.contains(&ih);
+                    if served != want {
+                        let which = if signed { "signed-peers" } else { "peers" };
+                        r.violation(&format!("store/{which}/{}", if served { "evicted-info-hash-still-served" } else { "lru-survivor-missing" }), "the info hashes a peer store still holds differ from the LRU model (uses = announcements and lookups that found the hash)", case.clone(), json!({"step": step, "model": lru.len(), "capacity": cap}));
+                        break;
+                    }
+                    touch(lru, ih, cap, false);
+                    r.count("info_hash_survivor_checks");
                 }
             }
         }
